@@ -12,7 +12,8 @@ NOTE = ("Trusted: Coq 8.16.1 kernel; no axioms (Print Assumptions re-run on ever
 import sys
 sys.path.insert(0, VERIF)
 from harness import core
-CLAIMED = {p.ID: p.CLAIM for p in core.all_props() if getattr(p, "CLAIM", None)}
+READY = set(open(os.path.join(VERIF, "harness", "claimed.txt")).read().split())   # reviewed & passing on the unchanged tree
+CLAIMED = {p.ID: p.CLAIM for p in core.all_props() if getattr(p, "CLAIM", None) and p.ID in READY}
 
 REASON_TODO = "check not built yet in this round (framework under construction); planned, see DESIGN.md section 5"
 NOT_APPLICABLE = {}
